@@ -9,6 +9,7 @@ from mirsym.interp import Panic, Inconclusive
 from mirsym.values import *
 from mirsym.models.util import items, deref, variant, payload, some, none, unit, mkstr
 from native import oracle
+from checks import hobl
 
 ALPHA = [ord('a'), ord('A'), ord('b')]
 
@@ -145,6 +146,7 @@ def main(chk):
         tasks.append((o1_match, (prog, (2, 2, 2), 'ab')))
     chk.parallel(_dispatch, tasks)
 
+    hobl.handle_obligations(chk, chk.program('on'), {'C19'}, ['plugins'])
 
 if __name__ == '__main__':
     run_check('C19', main)
